@@ -24,7 +24,7 @@ import LMV.Driver.Util
     c17create    <obs> <alpha> <n> <item hex | - | #>*n
     c17stripe    <obs> <alpha> <text hex | ->
     c17load      <init obs> <file kind> <format hex> <protein 0|1> <n> (<record kind> <record obs>)*n
-                 file kind := path | missing | binary | chunked | boundary | text | bytearray | memoryview | noread
+                 file kind := path | missing | binary | chunked | boundary | greedy | text | bytearray | memoryview | noread
     c17cminit    <alpha> <column>*K        column := - | # | <n> <int | x>*n       (exact answer)
     c17sminit    <alpha> <pyarg> <column>*K     column := - | # | <n> <bits | x>*n  (exact answer)
 -/
@@ -173,7 +173,7 @@ def handle (toks : List String) : String :=
       | "path" => .path true | "missing" => .path false | "text" => .text
       -- file-like objects that are not io classes: `read(0)` returns `bytes` (whatever the size of the
       -- chunks later reads return) / returns `bytearray`, `memoryview` (not `bytes`: refused like text)
-      | "binary" | "chunked" | "boundary" => .binary
+      | "binary" | "chunked" | "boundary" | "greedy" => .binary
       | "bytearray" | "memoryview" => .text
       | _ => .noRead
     let fmt := unhexStr format
